@@ -244,8 +244,22 @@ theorem recoverAll_outer :
     firstRow Gen.Sem.recoverAll (envErr false) = some [.listAll, .retErr] ∧
     firstRow Gen.Sem.recoverAll (envErr true) = some [.listAll, .forEach, .retNil] := by decide
 
+/-- the entry `localStatus` makes for a pin of the pinset without table entry (as `statusAll` calls it: extras included, no filter) is the
+    model's `statusAllOf` -/
+theorem localT_eq (s : State) (c : Nat) (p : PinSpec) (hc : s.cur c = none) (hs : s.shared c = some p) :
+    localT Gen.Sem.localBody p.kind (heldAs s c p.mode) true (fun _ => true) = some (statusAllOf s c) := by
+  unfold statusAllOf
+  cases hk : p.kind <;> cases hh : heldAs s c p.mode <;>
+    simp [hc, hs, hk, hh, localT, firstRow, holdsLits, envLocal, Gen.Sem.localBody, execLocal]
+
+/-- without `incExtra`, or when the filter does not ask for them, meta and remote pins are left out -/
+theorem localT_skips (k : Kind) (b : Bool) (fm : Status → Bool) (hk : k ≠ .here) :
+    localT Gen.Sem.localBody k b false fm = some none ∧ localT Gen.Sem.localBody k b true (fun _ => false) = some none := by
+  cases k <;> cases b <;> simp at hk <;> simp [localT, firstRow, holdsLits, envLocal, Gen.Sem.localBody, execLocal]
+
 theorem tables_known_c :
     (known Gen.Sem.enqueue && known Gen.Sem.track && known Gen.Sem.untrack && known Gen.Sem.recover &&
-     known Gen.Sem.status && known Gen.Sem.addError && known Gen.Sem.recoverAll && known Gen.Sem.recoverAllBody) = true := by decide
+     known Gen.Sem.status && known Gen.Sem.addError && known Gen.Sem.recoverAll && known Gen.Sem.recoverAllBody &&
+     known Gen.Sem.localBody) = true := by decide
 
 end CV.C05.T
